@@ -685,6 +685,10 @@ class Fxp():
         elif isinstance(val, (int, float, complex)):
             vdtype = type(val)
 
+            if isinstance(val, int) and not (-2**63 <= val < 2**63):
+                # keep it as python integer (numpy would choose uint64 or float64)
+                val = np.array(val, dtype=object)
+
         elif isinstance(val, (np.ndarray, np.generic)):
             if isinstance(val, object):
                 vdtype = type(val.item(0))
@@ -845,7 +849,16 @@ class Fxp():
         if original_vdtype != complex and not np.issubdtype(original_vdtype, np.complexfloating):
             # val_dtype determination
             _n_word_max_ = min(_n_word_max, 64)
-            if np.max(val) >= 2**_n_word_max_ or np.min(val) < -2**_n_word_max_ or self.n_word >= _n_word_max_:
+            if val.dtype.kind in 'iO' and val.size > 0:
+                # integer input: largest magnitude before and after scaling (python integers, no overflow)
+                _val_mag = max(abs(int(np.max(val))), abs(int(np.min(val))))
+                _val_mag = max(_val_mag, _val_mag * conv_factor)
+            else:
+                _val_mag = 0
+
+            if np.max(val) >= 2**_n_word_max_ or np.min(val) < -2**_n_word_max_ or self.n_word >= _n_word_max_ or \
+                _val_mag >= 2**(_n_word_max_ - 1):
+                # python integers: value (or scaled value) doesn't fit in a 64 bits integer
                 val_dtype = object
                 val = val.astype(object)
             else:
@@ -862,6 +875,10 @@ class Fxp():
             if val_dtype == object:       
                 # convert each element to int
                 new_val = np.array(list(map(int, new_val.flatten())), dtype=val_dtype).reshape(new_val.shape)
+
+                if self.n_word < _n_word_max_:
+                    # stored codes fit in a 64 bits integer again
+                    new_val = new_val.astype(np.int64 if self.signed else np.uint64)
             
             if index is not None:
                 self.val[index] = new_val
